@@ -31,58 +31,30 @@ const char *g_sane_base;
 /* ---- system call contracts --------------------------------------------- */
 int mkdir(const char *path, mode_t mode)
 {
-	bool empty;
-	int r;
-
 	(void)mode;
-	ENV_CHECK_PATH(path, "C06.create.path_pre", empty);
-	r = env_result(empty);
 	/* mkdir on an existing directory: the code accepts EEXIST */
-	if (r == 0)
-		++g_ncreate;
-	return r;
+	return env_result(env_log_path(path));
 }
 
 int symlink(const char *target, const char *linkpath)
 {
-	bool empty;
-	int r;
-
 	(void)target; /* content only: never resolved by symlink(2) */
-	ENV_CHECK_PATH(linkpath, "C06.create.path_pre", empty);
-	r = env_result(empty);
-	if (r == 0)
-		++g_ncreate;
-	return r;
+	return env_result(env_log_path(linkpath));
 }
 
 int mknod(const char *path, mode_t mode, dev_t dev)
 {
-	bool empty;
-	int r;
-
 	(void)mode; (void)dev;
-	ENV_CHECK_PATH(path, "C06.create.path_pre", empty);
-	r = env_result(empty);
-	if (r == 0)
-		++g_ncreate;
-	return r;
+	return env_result(env_log_path(path));
 }
 
 int open(const char *path, int flags, ...)
 {
-	bool empty;
-	int r;
+	bool empty = env_log_path(path);
 
-	ENV_CHECK_PATH(path, "C06.create.path_pre", empty);
 	VERIF_ASSERT((flags & (O_CREAT | O_EXCL)) == (O_CREAT | O_EXCL),
 		     "C06.nofollow");
-	r = env_result(empty);
-	if (r == 0) {
-		++g_ncreate;
-		return 3;
-	}
-	return -1;
+	return env_result(empty) == 0 ? 3 : -1;
 }
 
 int close(int fd)
@@ -123,6 +95,8 @@ void harness(void)
 
 	ret = restore_fstree(NODE(0), flags);
 
+	ENV_CHECK_LOG("C06.create.path_pre");
+
 	/* which entries does the walk have to look at? */
 	visited[0] = !S_ISDIR(g_inodes[0].i.base.mode);
 	good[0] = true;
@@ -162,8 +136,8 @@ void harness(void)
 	}
 	VERIF_ASSERT(g_nsys <= NNODES, "C06.create.once_per_node");
 
-	VERIF_COVER(ret == 0 && g_ncreate == NNODES - 1 && NNODES > 1);
+	VERIF_COVER(ret == 0 && g_nsys == NNODES - 1 && NNODES > 1);
 	VERIF_COVER(ret == 0 && nbad > 0);
 	VERIF_COVER(ret == -1);
-	VERIF_COVER(g_max_depth == SHAPE_DEPTH);
+	VERIF_COVER(g_used[NNODES - 1]);
 }
